@@ -40,8 +40,11 @@ def matchTag (c : Ctx) (t : TagName) : Bool :=
 
 def litOk (c : Ctx) (l : Lit) : Bool := (matchTag c l.name) != l.neg
 def optOk (c : Ctx) (o : Opt) : Bool := o.all (litOk c)
-/-- a `// +build` line: OR of options; a line without options is `ignore` (false) -/
-def lineOk (c : Ctx) (ln : PlusLine) : Bool := ln.any (optOk c)
+/-- a `// +build` line: OR of options; a line without options is the word `ignore` -/
+def lineOk (c : Ctx) (ln : PlusLine) : Bool :=
+  match ln with
+  | [] => matchTag c (.word "ignore")
+  | _ => ln.any (optOk c)
 def linesOk (c : Ctx) (lns : List PlusLine) : Bool := lns.all (lineOk c)
 
 /-! ### file names -/
